@@ -23,6 +23,7 @@ BUILTIN_ALIASES = {'size_t': 'unsigned long', 'std::size_t': 'unsigned long', 'p
                    'std::uint8_t': 'unsigned char', 'std::uint16_t': 'unsigned short', 'std::uint32_t': 'unsigned int', 'std::uint64_t': 'unsigned long',
                    'std::int8_t': 'signed char', 'std::int16_t': 'short', 'std::int32_t': 'int', 'std::int64_t': 'long',
                    'uintptr_t': 'unsigned long', 'intptr_t': 'long', 'ssize_t': 'long'}
+STD_ALIASES = {'std::string': 'std::basic_string<char>', 'std::istream': 'std::basic_istream<char>', 'std::ostream': 'std::basic_ostream<char>', 'std::stringstream': 'std::basic_stringstream<char>', 'string': 'std::basic_string<char>', 'std::streamsize': 'long', 'std::streamoff': 'long'}
 
 def loc_of(n):
     f = n.get('_file'); l = n.get('_line')
@@ -99,6 +100,9 @@ class FuncCtx:
         self.may_throw = False
         self.loops = []          # (ordinal, kind, loc)
         self.ptr_refs = []       # references emitted as pointers to container elements (flag for evidence)
+        self.try_stack = []      # labels of enclosing try blocks
+        self.stmt_throws = False # the statement being emitted contains a call that may raise
+        self.ntry = 0
 
 class Emitter:
     def __init__(self, ix, cfg=None):
@@ -120,6 +124,10 @@ class Emitter:
         self.record_overrides = self.cfg.get('record_overrides', {})
         self.cur_loc = '?'
         self.stub_protos = OrderedDict()
+        self.calls = {}            # cname -> set of callee cnames (call graph, for the may-throw closure)
+        self.direct_throw = set()
+        self.throwing = set(self.cfg.get('throwing', ()))
+        self.exc_codes = {}
 
     # ------------------------------------------------------------------ errors
     def fail(self, n, msg):
@@ -140,6 +148,8 @@ class Emitter:
             key = t.key()
             if t.name in BUILTIN_ALIASES and not t.args:
                 return T('named', BUILTIN_ALIASES[t.name], const=t.const)
+            if t.name in STD_ALIASES and not t.args:
+                return self.canon(parse_type(STD_ALIASES[t.name]))
             if t.name in self.ix.aliases and not t.args:
                 r = self.canon(parse_type(self.ix.aliases[t.name]))
                 if t.const:
@@ -194,6 +204,13 @@ class Emitter:
         if name.startswith('std::enable_if<') and name.endswith('>::type'):
             parts = _split_top(name[len('std::enable_if<'):-len('>::type')])
             return self.canon(parse_type(parts[1])) if len(parts) > 1 else T('named', 'void')
+        m = re.match(r'^(std::array<.*>)::(value_type|reference|const_reference|size_type)$', name)
+        if m:
+            cont = self.canon(parse_type(m.group(1)))
+            if m.group(2) == 'size_type': return T('named', 'unsigned long')
+            return cont.args[0] if m.group(2) == 'value_type' else T('ref', inner=cont.args[0])
+        if name == 'std::enable_if_t' and t.args:
+            return self.canon(t.args[1]) if len(t.args) > 1 and isinstance(t.args[1], T) else T('named', 'void')
         if name.startswith('std::enable_if_t<'):
             parts = _split_top(name[len('std::enable_if_t<'):-1])
             return self.canon(parse_type(parts[1])) if len(parts) > 1 else T('named', 'void')
@@ -293,9 +310,13 @@ class Emitter:
         if nb > 1:
             raise Cxx2cError('cxx2c: %s has more than one non-empty base (layout rule does not cover it)' % key)
         drop = self.cfg.get('drop_fields', {}).get(key, [])
+        ncap = 0
         for c in rec.get('inner', []):
-            if c.get('kind') == 'FieldDecl' and c['name'] not in drop:
-                out.append((c['name'], self.canon(parse_type(c['type'].get('desugaredQualType') or c['type']['qualType'])), c))
+            if c.get('kind') == 'FieldDecl' and c.get('name', '') not in drop:
+                fname = c.get('name')
+                if not fname:
+                    fname = 'cap%d' % ncap; ncap += 1      # lambda capture
+                out.append((fname, self.canon(parse_type(c['type'].get('desugaredQualType') or c['type']['qualType'])), c))
         for fname, fts in self.cfg.get('extra_fields', {}).get(key, []):
             out.append((fname, self.canon(parse_type(fts)), None))
         names = [f[0] for f in out]
@@ -520,6 +541,21 @@ class Emitter:
         proto = self.proto_of(fn, cn, fc)
         self.func_text[cn] = None
         body = []
+        if rid is not None and rid in self.ix.lambda_expr:
+            # closure call operator: captured variables are reached through the closure's capture fields
+            le = self.ix.lambda_expr[rid]
+            rec = le['inner'][0]
+            fields = [c for c in rec.get('inner', []) if c.get('kind') == 'FieldDecl']
+            inits = [c for c in le['inner'][1:] if c.get('kind') != 'CompoundStmt']
+            caps = {}
+            for i, (fd, ie) in enumerate(zip(fields, inits)):
+                ft = self.canon(parse_type(fd['type'].get('desugaredQualType') or fd['type']['qualType']))
+                e0 = ie
+                while e0.get('kind') in ('ImplicitCastExpr', 'ParenExpr', 'CXXConstructExpr', 'ExprWithCleanups', 'MaterializeTemporaryExpr') and e0.get('inner'): e0 = e0['inner'][0]
+                acc = '(*self->cap%d)' % i if ft.is_ref() else 'self->cap%d' % i
+                if e0.get('kind') == 'CXXThisExpr': caps['this'] = 'self->cap%d' % i
+                elif e0.get('kind') == 'DeclRefExpr': caps[e0['referencedDecl']['id']] = acc
+            fc.lambda_caps = caps
         if kind == 'CXXConstructorDecl':
             body.extend(self.ctor_inits(fn, rid))
         comp = [c for c in fn.get('inner', []) if c.get('kind') in ('CompoundStmt', 'CXXTryStmt')]
@@ -753,6 +789,9 @@ class Emitter:
     # ------------------------------------------------------------------ calls
     def call_ovm_stmt(self, fn_any, self_ptr, arg_nodes, via_decl=None):
         cn = self.request_func(fn_any)
+        if self.fc is not None:
+            self.calls.setdefault(self.fc.cname, set()).add(cn)
+            if cn in self.throwing: self.fc.stmt_throws = True
         d = self.ix.definition(self.ix.first.get(fn_any['id'], fn_any['id'])) or fn_any
         params = self.params_of(d)
         args = []
@@ -845,7 +884,7 @@ class Emitter:
         return v + ('f' if parse_type(self.qtype(n)).name == 'float' else '')
     def e_CXXNullPtrLiteralExpr(self, n): return '0'
     def e_GNUNullExpr(self, n): return '0'
-    def e_StringLiteral(self, n): return 'OVM_STR(%d)' % (sum(ord(c) for c in str(n.get('value', ''))) % 100000)
+    def e_StringLiteral(self, n): return '((char *)"")'
     def e_CXXScalarValueInitExpr(self, n): return '0'
     def e_ImplicitValueInitExpr(self, n): return '0'
     def e_UnaryExprOrTypeTraitExpr(self, n):
@@ -876,9 +915,51 @@ class Emitter:
             if dt is not None and dt.is_ref():
                 return '(*%s)' % name
             return name
+        if rk in ('VarTemplateSpecializationDecl',):
+            d = self.ix.by_id.get(rd['id'])
+            v = None
+            for c in (d or {}).get('inner', []):
+                if 'valueCategory' in c:
+                    v = self.const_eval(c)
+            if v is None: self.fail(n, 'variable template specialisation without constant value: ' + rd.get('name', '') + ' ' + str([c.get('type', {}).get('qualType') for c in (d or {}).get('inner', []) if c.get('kind') == 'TemplateArgument']))
+            return str(v) + ('UL' if parse_type(self.qtype(n)).name in ('size_t', 'unsigned long') else '')
         if rk in FUNC_KINDS:
             self.fail(n, 'function reference outside call position: ' + rd.get('name', ''))
         self.fail(n, 'DeclRefExpr to ' + rk)
+
+    def const_eval(self, n):
+        """integer constant expressions over literals, sizeof, + - * / and other variable-template constants"""
+        k = n.get('kind')
+        if k in ('IntegerLiteral', 'CXXBoolLiteralExpr', 'CharacterLiteral'): return _const_value(n)
+        if k == 'ConstantExpr' and 'value' in n: return _const_value(n)
+        if k in ('ImplicitCastExpr', 'ParenExpr', 'CStyleCastExpr', 'CXXStaticCastExpr', 'CXXFunctionalCastExpr', 'ExprWithCleanups', 'ConstantExpr', 'SubstNonTypeTemplateParmExpr'):
+            return self.const_eval(n['inner'][-1])
+        if k == 'UnaryExprOrTypeTraitExpr' and n.get('name') == 'sizeof':
+            if 'argType' in n: t = self.canon(parse_type(n['argType'].get('desugaredQualType') or n['argType']['qualType']))
+            else: t = self.T_of(n['inner'][0]).strip_ref()
+            return self.sizeof_type(t)
+        if k == 'UnaryOperator' and n.get('opcode') in ('+', '-'):
+            v = self.const_eval(n['inner'][0])
+            return v if v is None or n['opcode'] == '+' else -v
+        if k == 'BinaryOperator':
+            a = self.const_eval(n['inner'][0]); b = self.const_eval(n['inner'][1])
+            if a is None or b is None: return None
+            op = n['opcode']
+            return {'+': a + b, '-': a - b, '*': a * b}.get(op) if op in '+-*' else (a // b if op == '/' and b else None)
+        if k == 'DeclRefExpr' and n['referencedDecl']['kind'] in ('VarTemplateSpecializationDecl', 'VarDecl'):
+            d = self.ix.by_id.get(n['referencedDecl']['id'])
+            for c in (d or {}).get('inner', []):
+                if 'valueCategory' in c: return self.const_eval(c)
+        return None
+
+    def sizeof_type(self, t):
+        t = t.strip_ref()
+        if t.kind == 'named' and t.name == 'std::array':
+            e = self.sizeof_type(t.args[0]); n = int(re.sub(r'[uUlL]', '', str(t.args[1])))
+            return None if e is None else e * n
+        if t.kind == 'ptr': return 8
+        if self.is_enum(t): return {'_Bool': 1, 'char': 1, 'signed char': 1, 'unsigned char': 1, 'short': 2, 'unsigned short': 2, 'int': 4, 'unsigned int': 4, 'long': 8, 'unsigned long': 8}.get(self.enum_info(t.key()))
+        return {'_Bool': 1, 'char': 1, 'signed char': 1, 'unsigned char': 1, 'short': 2, 'unsigned short': 2, 'int': 4, 'unsigned int': 4, 'long': 8, 'unsigned long': 8, 'float': 4, 'double': 8, 'long long': 8, 'unsigned long long': 8}.get(self.ctype(t) if t.name in PRIM_C else None)
 
     def _is_global(self, d):
         return d['id'] in self.ix.qual and d.get('_local') is not True and d.get('id') in getattr(self, '_globals', self._collect_globals())
@@ -902,7 +983,16 @@ class Emitter:
         t = self.canon(parse_type(d['type'].get('desugaredQualType') or d['type']['qualType']))
         if t.name in PRIM_C or self.is_enum(t):
             v = _const_value(init)
-            if v is None: self.fail(d, 'global variable without constant value: ' + d.get('name', ''))
+            if v is None: v = self.const_eval(init)
+            if v is None:
+                # constant initialiser we cannot fold (e.g. numeric_limits<T>::max()): emit the expression itself
+                prev = self.fc
+                try:
+                    if self.fc is None:
+                        self.fc = FuncCtx('global'); self.fc.root = dd; self.fc.self_t = None
+                    return '(%s)' % self.E(init)
+                finally:
+                    self.fc = prev
             return str(v)
         gname = 'ovm_global_' + sanitize(self.ix.qual.get(d['id'], d['name']))
         if gname not in self.func_text:
@@ -1154,9 +1244,24 @@ class Emitter:
             else: parts.append(_stmts_to_commas(self.init_into(ft, '%s.cap%d' % (tmp, i), ie)).rstrip(','))
         return '(%s, %s)' % (', '.join(parts), tmp)
 
+    def exc_code(self, key):
+        key = key.replace('const ', '').strip()
+        if key not in self.exc_codes: self.exc_codes[key] = 10 + len(self.exc_codes)
+        return self.exc_codes[key]
+
+    def throw_code(self, n):
+        inner = [c for c in n.get('inner', []) if c.get('kind')]
+        if not inner: return None           # rethrow
+        return self.exc_code(self.T_of(inner[0]).strip_ref().key())
+
+    def propagate(self):
+        if self.fc.try_stack: return 'goto %s;' % self.fc.try_stack[-1]
+        return self.return_zero()
+
     def e_CXXThrowExpr(self, n):
-        self.fc.may_throw = True
-        return '(ovm_exc = 1)'
+        self.fc.may_throw = True; self.direct_throw.add(self.fc.cname)
+        c = self.throw_code(n)
+        return '(ovm_exc = %s)' % (c if c is not None else 'ovm_exc')
 
     # ------------------------------------------------------------------ statements
     def stmt(self, n, top=False):
@@ -1164,6 +1269,13 @@ class Emitter:
         if k is None: return []
         self.cur_loc = loc_of(n) if 'range' in n else self.cur_loc
         m = getattr(self, 's_' + k, None)
+        if k in ('DeclStmt',) or (m is None and 'valueCategory' in n):
+            self.fc.stmt_throws = False
+            lines = m(n) if m is not None else self.expr_stmt(n)
+            if self.fc.stmt_throws:
+                lines = lines + ['if (ovm_exc) { %s }' % self.propagate()]
+                self.fc.stmt_throws = False
+            return lines
         if m is not None:
             return m(n) if k != 'CompoundStmt' else m(n, top)
         if 'valueCategory' in n:
@@ -1175,13 +1287,24 @@ class Emitter:
         tq = self.qtype(n)
         if 'basic_ostream' in tq:
             return ['/* stream output dropped: %s */;' % loc_of(n)]
+        if 'basic_string<char' in tq and self._is_string_assignment(n):
+            return ['/* string bookkeeping dropped (contents of std::string are not modelled): %s */;' % loc_of(n)]
         if n.get('kind') == 'CXXThrowExpr' or (n.get('kind') == 'ExprWithCleanups' and n['inner'][0].get('kind') == 'CXXThrowExpr'):
-            self.fc.may_throw = True
-            return ['{ ovm_exc = 1; %s }' % self.return_zero()]
+            self.fc.may_throw = True; self.direct_throw.add(self.fc.cname)
+            t = n if n.get('kind') == 'CXXThrowExpr' else n['inner'][0]
+            c = self.throw_code(t)
+            return ['{ %s %s }' % ('ovm_exc = %d;' % c if c is not None else '', self.propagate())]
         def f():
             e = self.E(n)
             return [strip_parens(e) + ';']
         return self.with_temps(f)
+
+    def _is_string_assignment(self, n):
+        while n.get('kind') in ('ExprWithCleanups', 'ParenExpr'): n = n['inner'][0]
+        if n.get('kind') != 'CXXOperatorCallExpr': return False
+        c = n['inner'][0]
+        while c.get('kind') in ('ImplicitCastExpr',): c = c['inner'][0]
+        return c.get('kind') == 'DeclRefExpr' and c['referencedDecl'].get('name') in ('operator=', 'operator+=')
 
     def return_zero(self):
         if self.fc.ret_ctype == 'void': return 'return;'
@@ -1361,6 +1484,7 @@ class Emitter:
         if n.get('hasVar'):
             pre.extend(self.stmt(inner.pop(0)))
         cond = inner[0]; then = inner[1]; els = inner[2] if len(inner) > 2 else None
+        self.fc.stmt_throws = False
         saved = self.fc.temps; self.fc.temps = []
         if n.get('isConstexpr'):
             v = _const_value(cond)
@@ -1368,6 +1492,11 @@ class Emitter:
         else:
             ce = self.E(cond)
         decls = self.fc.temps; self.fc.temps = saved
+        if self.fc.stmt_throws:
+            self.fc.stmt_throws = False
+            cn_ = '__c%d' % (self.fc.ntemp + 1); self.fc.ntemp += 1
+            decls = decls + ['_Bool %s = %s;' % (cn_, strip_parens(ce)), 'if (ovm_exc) { %s }' % self.propagate()]
+            ce = cn_
         out = pre + decls + ['if (%s)' % strip_parens(ce)] + self.block(then)
         if els is not None:
             out += ['else'] + self.block(els)
@@ -1466,7 +1595,36 @@ class Emitter:
         return ['default:'] + self.stmt(n['inner'][-1])
 
     def s_CXXTryStmt(self, n):
-        self.fail(n, 'try/catch (no rule yet)')
+        self.fc.ntry += 1
+        lab = '__catch_%d' % self.fc.ntry
+        body = n['inner'][0]; catches = n['inner'][1:]
+        self.fc.try_stack.append(lab)
+        out = self.stmt(body)
+        self.fc.try_stack.pop()
+        out.append('if (0) { %s: ;' % lab)
+        first = True
+        for c in catches:
+            inner = c.get('inner', [])
+            var = inner[0] if inner and inner[0].get('kind') == 'VarDecl' else None
+            hb = inner[-1]
+            if var is None or 'type' not in var:
+                cond = 'ovm_exc != 0'
+            else:
+                vt = self.canon(parse_type(var['type'].get('desugaredQualType') or var['type']['qualType'])).strip_ref()
+                key = vt.key().replace('const ', '')
+                if key in ('std::exception', 'std::runtime_error', 'std::logic_error'): cond = 'ovm_exc != 0'
+                elif key in ('std::bad_alloc', 'std::length_error'): cond = 'ovm_exc == 2'
+                else: cond = 'ovm_exc == %d' % self.exc_code(key)
+            lines = ['  %sif (%s) {' % ('' if first else 'else ', cond), '    ovm_exc = 0;']
+            if var is not None and var.get('name'):
+                vt = self.canon(parse_type(var['type'].get('desugaredQualType') or var['type']['qualType']))
+                ct = self.ctype(vt.strip_ref())
+                lines.append('    %s %s__v; %s *%s = &%s__v;' % (ct, var['name'], ct, var['name'], var['name']) if vt.is_ref() else '    %s %s;' % (ct, var['name']))
+            lines += ['    ' + l for l in self.stmt(hb)] + ['  }']
+            out += lines; first = False
+        out.append('  else { %s }' % self.propagate())
+        out.append('}')
+        return out
 
 def _split_top(s):
     out = []; d = 0; cur = ''
